@@ -106,16 +106,27 @@ pub fn run_c14(ctx: &Ctx) -> Report {
 
     // (b) zero-column resultsets: affected rows = number of rows ended
     let counts: Vec<usize> = if ctx.miri { vec![0, 2] } else { vec![0, 1, 2, 250, 251, 252, 300, 70_000, 65_535, 65_536] };
-    let n = counts.len() as u64 * 4;
+    let n = counts.len() as u64 * 16;
     let r = par_cases(ctx, "C14", "zero-col", n, |_rng, i, rep| {
-        let k = counts[i as usize / 4];
+        let k = counts[i as usize / 16];
         let by_row = i % 2 == 0;
         let bin = (i / 2) % 2 == 1;
         let mut ops = vec![QOp::Start(0)];
         for _ in 0..k {
             ops.push(if by_row { QOp::Row(vec![], RowForm::Owned) } else { QOp::EndRow });
         }
-        ops.push(QOp::Finish);
+        // every way a backend may leave the resultset: finish(), letting the writer go out of scope
+        // (explicitly, or at the end of the callback), finish_one() and then no_more_results()
+        let ending = ["finish", "drop", "scope-end", "finish_one+no_more_results"][(i as usize / 4) % 4];
+        match ending {
+            "finish" => ops.push(QOp::Finish),
+            "drop" => ops.push(QOp::DropRow),
+            "scope-end" => {}
+            _ => {
+                ops.push(QOp::FinishOne);
+                ops.push(QOp::NoMore);
+            }
+        }
         let cmds = vec![Cmd::prepare(b"p"), if bin { Cmd::execute(1, &[], false) } else { Cmd::query(b"q") }, Cmd::ping()];
         let scripts = vec![Script::PrepOk { id: 1, params: vec![], cols: vec![] }, Script::Q(QProg { colsets: vec![vec![]], ops, on_err: OnErr::Drop })];
         let obs = run_case(&Case::new(cmds, scripts));
@@ -123,8 +134,8 @@ pub fn run_c14(ctx: &Ctx) -> Report {
         if harness_panic(&obs, rep) {
             return;
         }
-        rep.counters.class(format!("zero-column set with rows={} ended by {} {}", lenenc_class(k as u64), if by_row { "write_row" } else { "end_row" }, if bin { "bin" } else { "text" }));
-        let d = || J::obj().set("rows_ended", k).set("by", if by_row { "write_row" } else { "end_row" }).set("mode", if bin { "binary" } else { "text" }).set("outcome", obs.outcome.describe());
+        rep.counters.class(format!("zero-column set with rows={} ended by {} {} left by {}", lenenc_class(k as u64), if by_row { "write_row" } else { "end_row" }, if bin { "bin" } else { "text" }, ending));
+        let d = || J::obj().set("rows_ended", k).set("by", if by_row { "write_row" } else { "end_row" }).set("mode", if bin { "binary" } else { "text" }).set("left_by", ending).set("outcome", obs.outcome.describe());
         if i == 0 {
             rep.sample(d());
         }
@@ -166,7 +177,7 @@ pub fn run_c14(ctx: &Ctx) -> Report {
                         }
                         ops.push(if rng.bool() { QOp::Row(vec![], RowForm::Owned) } else { QOp::EndRow });
                     }
-                    ops.push(if last { QOp::Finish } else { QOp::FinishOne });
+                    ops.push(if !last { QOp::FinishOne } else if rng.bool() { QOp::Finish } else { QOp::DropRow });
                     want.push(Some((k, 0)));
                     shape.push_str(&format!("Z{} ", k));
                 }
@@ -193,7 +204,7 @@ pub fn run_c14(ctx: &Ctx) -> Report {
         let ends_with_err = rng.chance(1, 4);
         if ends_with_err {
             match ops.pop() {
-                Some(QOp::Finish) => ops.push(QOp::FinishOne),
+                Some(QOp::Finish) | Some(QOp::DropRow) => ops.push(QOp::FinishOne),
                 Some(QOp::Completed(a, b)) => ops.push(QOp::CompleteOne(a, b)),
                 Some(other) => ops.push(other),
                 None => {}
@@ -626,6 +637,117 @@ pub fn run_c09(ctx: &Ctx) -> Report {
             }
         }
         rep.counters.inc("conversations_with_stray_commands_judged");
+    });
+    rep.merge(r);
+    // ---- several headers in one reply, text and binary: resultsets with no rows at all, left by
+    //      finish_one / finish / drop, a completion or an error behind them; and a PREPARE that announced
+    //      other columns than the execution then starts (a backend may only know the exact types once it
+    //      runs the statement): the client must get, for every resultset that was started, exactly the
+    //      definitions handed to start(), in order
+    let n = if ctx.miri { 2 } else { ctx.n(1500, 40_000) };
+    let r = par_cases(ctx, "C09", "chains", n, |rng, i, rep| {
+        let bin = rng.bool();
+        let nsets = rng.range(1, 4) as usize;
+        let sets: Vec<Vec<Column>> = (0..nsets)
+            .map(|_| {
+                let nc = rng.range(1, 5) as usize;
+                (0..nc)
+                    .map(|c| {
+                        let (tl, sl) = (rng.below(6) as usize, rng.below(4) as usize);
+                        Column {
+                        table: name_of(rng, tl),
+                        column: format!("c{}{}", c, String::from_utf8_lossy(&rng.ascii(sl))),
+                        coltype: *rng.pick(&[ColumnType::MYSQL_TYPE_LONG, ColumnType::MYSQL_TYPE_LONGLONG, ColumnType::MYSQL_TYPE_SHORT, ColumnType::MYSQL_TYPE_VAR_STRING, ColumnType::MYSQL_TYPE_TINY]),
+                        colflags: if rng.bool() { ColumnFlags::UNSIGNED_FLAG } else { ColumnFlags::empty() } | if rng.chance(1, 4) { ColumnFlags::ZEROFILL_FLAG } else { ColumnFlags::empty() },
+                    }})
+                    .collect()
+            })
+            .collect();
+        // what PREPARE announced for the statement: nothing, the first set exactly, or the same number
+        // of columns with other types and signedness
+        let announced: Vec<Column> = match rng.below(3) {
+            0 => vec![],
+            1 => sets[0].clone(),
+            _ => sets[0].iter().map(|c| Column { table: c.table.clone(), column: c.column.clone(), coltype: if c.coltype == ColumnType::MYSQL_TYPE_LONGLONG { ColumnType::MYSQL_TYPE_LONG } else { ColumnType::MYSQL_TYPE_LONGLONG }, colflags: c.colflags ^ ColumnFlags::UNSIGNED_FLAG }).collect(),
+        };
+        let mut ops = Vec::new();
+        let mut shape = String::new();
+        for (k, cols) in sets.iter().enumerate() {
+            let last = k + 1 == nsets;
+            ops.push(QOp::Start(k));
+            let nrows = if rng.bool() { 0 } else { rng.range(1, 2) as usize };
+            for r in 0..nrows {
+                ops.push(QOp::Row(
+                    cols.iter().map(|c| if c.coltype == ColumnType::MYSQL_TYPE_VAR_STRING { Cell::val(V::Str(format!("v{}", r))) } else if c.colflags.contains(ColumnFlags::UNSIGNED_FLAG) { Cell::val(V::U8(r as u8 + 1)) } else { Cell::val(V::I8(r as i8 + 1)) }).collect(),
+                    RowForm::Owned,
+                ));
+            }
+            shape.push_str(&format!("R{}x{} ", cols.len(), nrows));
+            if !last {
+                ops.push(QOp::FinishOne);
+            } else {
+                match rng.below(5) {
+                    0 => {
+                        ops.push(QOp::Finish);
+                        shape.push_str("finish");
+                    }
+                    1 => {
+                        ops.push(QOp::DropRow);
+                        shape.push_str("drop");
+                    }
+                    2 => {
+                        ops.push(QOp::FinishOne);
+                        ops.push(QOp::Error(1064, b"the next statement failed".to_vec()));
+                        shape.push_str("finish_one+error");
+                    }
+                    3 => {
+                        ops.push(QOp::FinishOne);
+                        ops.push(QOp::Completed(3, 4));
+                        shape.push_str("finish_one+completed");
+                    }
+                    _ => {
+                        ops.push(QOp::FinishErr(1105, b"failed while producing rows".to_vec()));
+                        shape.push_str("finish_error");
+                    }
+                }
+            }
+        }
+        let cmds = vec![Cmd::prepare(b"p"), if bin { Cmd::execute(1, &[], false) } else { Cmd::query(b"q") }, Cmd::ping()];
+        let scripts = vec![Script::PrepOk { id: 1, params: vec![], cols: announced.clone() }, Script::Q(QProg { colsets: sets.clone(), ops, on_err: OnErr::Drop })];
+        let obs = run_case(&varied_case(rng, cmds, scripts));
+        rep.evaluations += 1;
+        if harness_panic(&obs, rep) {
+            return;
+        }
+        rep.counters.class(format!("chain of {} headers, {} ({})", nsets, shape.split(' ').last().unwrap_or(""), if bin { "bin" } else { "text" }));
+        let d = || J::obj().set("mode", if bin { "binary" } else { "text" }).set("chain (RcXr = resultset of c columns and r rows)", shape.clone()).set("prepare_announced_columns", announced.len()).set("outcome", obs.outcome.describe());
+        if i == 0 {
+            rep.sample(d());
+        }
+        let dec = match decode_output(&obs) {
+            Ok(x) => x.2,
+            Err(e) => {
+                rep.violations.push(viol("C09", "C09 bad-framing".into(), e, d()));
+                return;
+            }
+        };
+        let Some(Resp::Parts(parts)) = dec.resps.get(3) else {
+            rep.violations.push(viol("C09", "C09 undecodable-response".into(), format!("the reply with {} resultset headers does not decode: {:?}", nsets, dec.stop), d()));
+            return;
+        };
+        let heads: Vec<&Vec<ColDef>> = parts.iter().filter_map(|p| if let Part::Rows { cols, .. } = p { Some(cols) } else { None }).collect();
+        if heads.len() != nsets {
+            rep.violations.push(viol("C09", "C09 chain-header-count".into(), format!("{} resultsets were started, the client sees {} headers", nsets, heads.len()), d()));
+            return;
+        }
+        for (k, (g, w)) in heads.iter().zip(sets.iter()).enumerate() {
+            if let Err((kind, e)) = cmp_cols(&format!("header {} of the reply", k), g, w) {
+                rep.violations.push(viol("C09", format!("C09 chain-{}-differs", kind), e, d()));
+                return;
+            }
+            rep.counters.add("definitions_compared", g.len() as u64);
+            rep.counters.inc("chained_headers_compared");
+        }
     });
     rep.merge(r);
     rep.merge(super::mega::run(ctx, "C09", 1500, 60000));
